@@ -152,6 +152,32 @@ def hazards(root, url):
         c2["account"][0]["hooks"] = [names[0]]
         c2["certificate"][0]["hooks"] = ["h1"]
         yield ("group-cycle-%d-account" % n, c2, {})
+    # the reference that closes the cycle is NOT the first member: it comes after a hook, after an
+    # acyclic group, or through the second branch of a diamond
+    for n in (1, 2, 3):
+        for lead in ("hook", "group"):
+            c = base(root, url)
+            names = ["cyc%d" % j for j in range(n)]
+            first = "h1" if lead == "hook" else "leaf"
+            c["group"] = [{"name": names[j], "hooks": [first, names[(j + 1) % n]]} for j in range(n)]
+            c["group"].append({"name": "leaf", "hooks": ["h1", "h2"]})
+            c["certificate"][0]["hooks"] = [names[0]]
+            yield ("group-cycle-%d-after-%s" % (n, lead), c, {})
+    c = base(root, url)
+    c["group"] = [{"name": "top", "hooks": ["left", "right"]}, {"name": "left", "hooks": ["h1"]},
+                  {"name": "right", "hooks": ["h2", "top"]}]
+    c["certificate"][0]["hooks"] = ["top"]
+    yield ("group-cycle-second-branch", c, {})
+    # acyclic controls that look similar: the same group twice, a diamond
+    c = base(root, url)
+    c["group"] = [{"name": "top", "hooks": ["leaf", "h1", "leaf"]}, {"name": "leaf", "hooks": ["h2"]}]
+    c["certificate"][0]["hooks"] = ["top", "top"]
+    yield ("group-repeated-acyclic", c, {})
+    c = base(root, url)
+    c["group"] = [{"name": "top", "hooks": ["left", "right"]}, {"name": "left", "hooks": ["leaf"]},
+                  {"name": "right", "hooks": ["leaf"]}, {"name": "leaf", "hooks": ["h1"]}]
+    c["certificate"][0]["hooks"] = ["top"]
+    yield ("group-diamond-acyclic", c, {})
     # a group named like a hook, a group referencing itself through a hook name clash
     c = base(root, url)
     c["group"] = [{"name": "h1", "hooks": ["h1"]}]
